@@ -139,6 +139,10 @@ func parseFlowDesc(flowDesc, ueIP string) (*ipFilterRule, error) {
 		switch fields[i] {
 		case "from":
 			i++
+			if i >= len(fields) {
+				return nil, errBadFilterDesc
+			}
+
 			xform(i)
 
 			err := ipf.src.parseNet(fields[i])
@@ -147,7 +151,7 @@ func parseFlowDesc(flowDesc, ueIP string) (*ipFilterRule, error) {
 				return nil, err
 			}
 
-			if fields[i+1] != "to" {
+			if i+1 < len(fields) && fields[i+1] != "to" {
 				i++
 
 				err = ipf.src.parsePort(fields[i])
@@ -158,6 +162,10 @@ func parseFlowDesc(flowDesc, ueIP string) (*ipFilterRule, error) {
 			}
 		case "to":
 			i++
+			if i >= len(fields) {
+				return nil, errBadFilterDesc
+			}
+
 			xform(i)
 
 			err := ipf.dst.parseNet(fields[i])
